@@ -219,9 +219,18 @@ def run_observe(prop, tier, seed, outdir, timeout):
               cwd=HARNESS, timeout=timeout)
 
 def run_cases(outdir, timeout):
-    files = sorted(glob.glob(os.path.join(outdir, "cases_*.v")))
+    def shard_no(f):
+        m = re.search(r"cases_(\d+)\.v$", f)
+        return int(m.group(1)) if m else 0
+    files = sorted(glob.glob(os.path.join(outdir, "cases_*.v")), key=shard_no)  # shard k <-> obs.json shards[k]
     def one(f):
-        rc, out, dt = sh(["coqc", "-Q", os.path.join(COQ, "theories"), "Geo", "-w", "-all", os.path.basename(f)], cwd=outdir, timeout=timeout)
+        cmd = ["coqc", "-Q", os.path.join(COQ, "theories"), "Geo", "-w", "-all", os.path.basename(f)]
+        rc, out, dt = sh(cmd, cwd=outdir, timeout=timeout)
+        if rc < 0:
+            # killed by a signal (e.g. the kernel's OOM killer while something else exhausts memory): not a verdict; once more
+            rc, out, dt = sh(cmd, cwd=outdir, timeout=timeout)
+            if rc < 0:
+                out += "\n[coqc killed by signal %d twice]" % (-rc)
         m = re.search(r"M\s*=\s*\[(.*?)\]\s*:\s*list nat", out, re.S)
         if rc != 0 or not m:
             return (f, None, out[-1500:], dt)
